@@ -247,10 +247,10 @@ fn main() {
             }
             else if r < 620 {
                 let names = ["peek", "peek_entry", "contains", "peek_lru", "peek_mru", "len", "is_empty",
-                             "current_size", "max_size", "capacity", "debug"];
+                             "current_size", "max_size", "capacity", "debug", "hasher"];
                 o = op(names[rng.gen_range(0..names.len())], c);
                 o["a"]["k"] = json!(k);
-                if ["peek_lru", "peek_mru", "len", "is_empty", "current_size", "max_size", "capacity", "debug"]
+                if ["peek_lru", "peek_mru", "len", "is_empty", "current_size", "max_size", "capacity", "debug", "hasher"]
                         .contains(&o["a"]["op"].as_str().unwrap()) {
                     o["a"]["k"] = json!(0);
                 }
